@@ -267,20 +267,8 @@ impl S3PartitionStorage {
         let start = std::time::Instant::now();
         let bucket = NUN_S3_BUCKET.as_str();
         let client = build_s3_client();
-        let objects = rt.block_on(async {
-            client
-                .list_objects_v2()
-                .set_prefix(Some(NUN_S3_READ_PREFIX.to_string()))
-                .bucket(bucket)
-                .send()
-                .await
-                .unwrap()
-                .contents()
-                .into_iter()
-                .flat_map(|x| x.key())
-                .map(ToString::to_string)
-                .collect::<Vec<String>>()
-        });
+        let objects =
+            rt.block_on(list_all_object_keys(&client, bucket, NUN_S3_READ_PREFIX.to_string()));
         log::debug!("Objects: {:?}", objects);
         let prefix_to_clean = format!("{}/", &NUN_S3_READ_PREFIX.to_string());
         log::debug!("Prefix to clean: {}", prefix_to_clean);
@@ -342,25 +330,46 @@ fn get_patirion_list_form_s3(
     db_name: &String,
     bucket: &str,
 ) -> Vec<String> {
-    let partition_list = rt.block_on(async {
-        client
+    // With the trailing slash: the objects of a database whose name starts with this
+    // database's name (db1, db10) are not this database's partitions
+    let prefix = format!("{}/{}/", NUN_S3_PREFIX.to_string(), db_name);
+    let partition_list = rt
+        .block_on(list_all_object_keys(client, bucket, prefix))
+        .into_iter()
+        .map(|s| s.split("/").last().unwrap().to_string())
+        .map(|s| s.split(".").next().unwrap().to_string())
+        .collect::<Vec<String>>();
+    partition_list
+}
+
+/// A listing answers at most 1000 keys at a time: follows the continuation token to the end,
+/// otherwise the databases (or partitions) behind the first page are silently not loaded
+pub async fn list_all_object_keys(client: &Client, bucket: &str, prefix: String) -> Vec<String> {
+    let mut keys: Vec<String> = Vec::new();
+    let mut continuation_token: Option<String> = None;
+    loop {
+        let page = client
             .list_objects_v2()
-            // With the trailing slash: the objects of a database whose name starts with this
-            // database's name (db1, db10) are not this database's partitions
-            .set_prefix(Some(format!("{}/{}/", NUN_S3_PREFIX.to_string(), db_name)))
+            .set_prefix(Some(prefix.clone()))
+            .set_continuation_token(continuation_token.clone())
             .bucket(bucket)
             .send()
             .await
-            .unwrap()
-            .contents()
-            .into_iter()
-            .flat_map(|x| x.key())
-            .map(ToString::to_string)
-            .map(|s| s.split("/").last().unwrap().to_string())
-            .map(|s| s.split(".").next().unwrap().to_string())
-            .collect::<Vec<String>>()
-    });
-    partition_list
+            .unwrap();
+        keys.extend(
+            page.contents()
+                .into_iter()
+                .flat_map(|x| x.key())
+                .map(ToString::to_string),
+        );
+        match page.next_continuation_token() {
+            Some(token) if page.is_truncated().unwrap_or(false) => {
+                continuation_token = Some(token.to_string())
+            }
+            _ => break,
+        }
+    }
+    keys
 }
 
 async fn read_str_value(
